@@ -228,10 +228,17 @@ func cmdEval(prop string, n int, seed uint64, driver, out, corpus string) (*Resu
 	}
 	lines := make([]string, len(cases))
 	goOut := make([]*T, len(cases))
+	repeatCalls = prop == "C19" || prop == "C12" || prop == "C01"
+	repeatViol := map[int]string{}
 	for i, c := range cases {
 		lines[i] = wireCase(c).Line()
+		repeatMismatch = ""
 		goOut[i] = runGo(c)
+		if repeatMismatch != "" {
+			repeatViol[i] = repeatMismatch
+		}
 	}
+	repeatCalls = false
 	modelLines, err := runDriver(driver, lines, out, "eval")
 	if err != nil {
 		return nil, err
@@ -280,6 +287,9 @@ func cmdEval(prop string, n int, seed uint64, driver, out, corpus string) (*Resu
 				GoProj: gp, ModelProj: mp, Case: describeCase(c), WireLine: lines[i]}
 			d.Predicate = implPredicate(prop, c, gout)
 			res.Disagreements = append(res.Disagreements, d)
+		} else if rv, bad := repeatViol[i]; bad {
+			res.Violations = append(res.Violations, Disagreement{Index: i, What: "a repeated call behaves differently", Go: goOut[i].String(),
+				Model: mt.String(), GoProj: gp, ModelProj: mp, Case: describeCase(c), WireLine: lines[i], Predicate: rv})
 		} else if pf := implPredicate(prop, c, gout); pf != "" {
 			// the implementation's own output fails the property's predicate although model and implementation agree
 			res.Violations = append(res.Violations, Disagreement{Index: i, What: "predicate fails on implementation output", Go: goOut[i].String(),
